@@ -283,6 +283,35 @@ class Evaluator:
         self.kind_events: List[Any] = []
         self.order_events: List[Any] = []
         self.max_steps = max_steps
+        # the stdlib `operator` module: the same dispatch the corresponding syntax gets
+        _dummy = ast.Constant(value=None)
+        for nm, cls in (("add", ast.Add), ("sub", ast.Sub), ("mul", ast.Mult), ("floordiv", ast.FloorDiv), ("mod", ast.Mod),
+                        ("truediv", ast.Div), ("and_", ast.BitAnd), ("or_", ast.BitOr), ("xor", ast.BitXor),
+                        ("lshift", ast.LShift), ("rshift", ast.RShift), ("pow", ast.Pow)):
+            self.funcs.setdefault(f"operator.{nm}", (lambda c: lambda a, b: self.binop(c(), a, b, _dummy))(cls))
+        for nm, cls in (("eq", ast.Eq), ("ne", ast.NotEq), ("lt", ast.Lt), ("le", ast.LtE), ("gt", ast.Gt), ("ge", ast.GtE),
+                        ("is_", ast.Is), ("is_not", ast.IsNot)):
+            self.funcs.setdefault(f"operator.{nm}", (lambda c: lambda a, b: self.compare(c(), a, b))(cls))
+        self.funcs.setdefault("operator.contains", lambda a, b: self.compare(ast.In(), b, a))
+        self.funcs.setdefault("operator.not_", lambda a: not self.truth(a))
+        self.funcs.setdefault("operator.truth", lambda a: self.truth(a))
+        self.funcs.setdefault("operator.neg", lambda a: self.eval(ast.UnaryOp(op=ast.USub(), operand=ast.Name(id="_x", ctx=ast.Load())), {"_x": a}))
+        self.funcs.setdefault("operator.invert", lambda a: self.eval(ast.UnaryOp(op=ast.Invert(), operand=ast.Name(id="_x", ctx=ast.Load())), {"_x": a}))
+        self.funcs.setdefault("operator.inv", self.funcs["operator.invert"])
+        self.funcs.setdefault("operator.getitem", lambda a, k: self.eval(
+            ast.Subscript(value=ast.Name(id="_a", ctx=ast.Load()), slice=ast.Name(id="_k", ctx=ast.Load()), ctx=ast.Load()), {"_a": a, "_k": k}))
+        self.funcs.setdefault("operator.itemgetter", lambda *ks: (lambda a: self.funcs["operator.getitem"](a, ks[0]) if len(ks) == 1
+                                                                  else tuple(self.funcs["operator.getitem"](a, k) for k in ks)))
+        self.funcs.setdefault("importlib.import_module", self._import_module)
+
+    def _import_module(self, name: Any, package: Any = None) -> Any:
+        if not isinstance(name, str):
+            raise Undecided("import_module of abstract name")
+        hook = self.funcs.get("__import__")
+        if hook is None:
+            raise Undecided("call of importlib.import_module")
+        hook(name, {})
+        return Tag(name)
 
     # -- expressions -------------------------------------------------------------------------
     def eval(self, n: ast.AST, env: Dict[str, Any]) -> Any:
